@@ -262,7 +262,8 @@ class Codec:
             else:
                 t = rng.choice(['1', '38;5;1', '38;2;1;2;3', '58;5;255', '48;2;0;0;256', '38;5', '38', '0', '00', '01', '1;2',
                                 ' 1', '1 ', '+1', '-1', '77', '255', '256', '38;5;1;2', '38;2;1;2', '38;3;1', '107', '108',
-                                '1_0', '\t4', '38; 5; 1', '5;', ';5', '4\n', '38;5;01', '21', '10', '59', '58', '48;5;0'])
+                                '1_0', '\t4', '38; 5; 1', '5;', ';5', '4\n', '38;5;01', '21', '10', '59', '58', '48;5;0',
+                                '38;5;', '58;2;1;;3', '38;2;;;', '48;5; ', '1;', ';', '3~', '1;~', '5@', '2`', '4{', '7[', '9]'])
         S = self.mod.AnsiSetting
         inp = P.line('setting', P.e_str(t))
         form = rng.random()
@@ -335,6 +336,22 @@ class Codec:
         viol = []
         if out[0] == 'err' and not isinstance(out[1], (TypeError, ValueError)):
             viol.append(('C09', 'error_class', 'scrub %r: %r' % (a, out[1])))
+        # "nested lists are flattened in order": wrapping each maximal run of ints in a list of its own
+        # must not change the result
+        if a[0] in ('list', 'tuple') and out[0] == 'ok' and any(q[0] == 'int' for q in a[1]):
+            wrapped, run = [], []
+            for q in a[1]:
+                if q[0] == 'int':
+                    run.append(q)
+                else:
+                    if run: wrapped.append(('list', run)); run = []
+                    wrapped.append(q)
+            if run: wrapped.append(('list', run))
+            if not any(q[0] == 'selfref' for q in a[1]):
+                out2 = call(lambda: core._AnsiSettingPoint._scrub_ansi_settings(P.build_sarg(('list', wrapped), self.mod), make_unique=True))
+                if out2[0] != 'ok' or [str(q) for q in out2[1]] != [str(q) for q in out[1]]:
+                    viol.append(('C14', 'flatten_nested', '%r gives %r but with its integer runs wrapped in lists %r' % (
+                        a, [str(q) for q in out[1]], [str(q) for q in out2[1]] if out2[0] == 'ok' else out2[1])))
         self.emit('scrub', inp, outcome(out, lambda ss: P.ok_strs([str(s) for s in ss])), desc or 'scrub %r' % (a,), viol)
         return out
 
